@@ -43,14 +43,14 @@ type Explorer struct {
 	StopAtFirst bool
 	UseCache    bool
 	MaxViol     int // distinct (rule,key) violations kept
-	seen        map[uint64]int8
+	seen        map[uint64]int16
 	vseen       map[string]bool
 	Res         Result
 }
 
 func (e *Explorer) Explore() *Result {
 	e.Res.Outcomes = map[string]int{}
-	e.seen = map[uint64]int8{}
+	e.seen = map[uint64]int16{}
 	e.vseen = map[string]bool{}
 	if e.MaxSteps == 0 {
 		e.MaxSteps = 20000
@@ -123,7 +123,7 @@ func (e *Explorer) explore(prefix []int, used int) {
 	pts := s.Points
 	for i := len(prefix); i < len(pts); i++ {
 		p := pts[i]
-		rem := int8(e.Bound - cost + 1)
+		rem := int16(e.Bound - cost + 1)
 		if e.seen[p.FP] >= rem {
 			if e.UseCache {
 				e.Res.Pruned++
